@@ -2716,10 +2716,9 @@ pub open spec fn walk<T>(s: Seq<Node<T>>, w: Ranks, id: NodeId, by_next: bool) -
 /// d is a doubly linked run of live siblings (the ghost deque of the double-ended iterators)
 pub open spec fn run_ok<T>(s: Seq<Node<T>>, d: Seq<NodeId>, by_next: bool) -> bool {
     &&& forall|k: int| 0 <= k < d.len() ==> tgt_ok(s, Some(#[trigger] d[k]))
-    &&& forall|k: int|
-        0 <= k < d.len() - 1 ==> lnk(s[(#[trigger] d[k]).idx()], by_next) == Some(d[k + 1]) && lnk(s[d[k + 1].idx()], !by_next) == Some(
-            d[k],
-        )
+    &&& forall|j: int, k: int|
+        0 <= j && k == j + 1 && k < d.len() ==> lnk(s[(#[trigger] d[j]).idx()], by_next) == Some(#[trigger] d[k]) && lnk(s[d[k].idx()], !by_next)
+            == Some(d[j])
     &&& forall|j: int, k: int| 0 <= j < k < d.len() ==> (#[trigger] d[j]).idx() != (#[trigger] d[k]).idx()
 }
 
@@ -3838,6 +3837,55 @@ pub proof fn lemma_alloc_all<T>(o: Seq<Node<T>>, of: Option<usize>, ol: Option<u
     }
     assert forall|a: Arena<T>| alloc_nodes(o, of, a.nodes@) implies #[trigger] a.acyclic() by {
         lemma_alloc_links(o, a.nodes@, x);
+    }
+}
+
+/// `run_ok` under another name: what `lemma_deq_all` concludes about the popped run must not match its own
+/// trigger again (no matching loop when a proof fails)
+pub open spec fn run_ok2<T>(s: Seq<Node<T>>, d: Seq<NodeId>, by_next: bool) -> bool {
+    &&& forall|k: int| 0 <= k < d.len() ==> tgt_ok(s, Some(#[trigger] d[k]))
+    &&& forall|j: int, k: int|
+        0 <= j && k == j + 1 && k < d.len() ==> lnk(s[(#[trigger] d[j]).idx()], by_next) == Some(#[trigger] d[k]) && lnk(s[d[k].idx()], !by_next)
+            == Some(d[j])
+    &&& forall|j: int, k: int| 0 <= j < k < d.len() ==> (#[trigger] d[j]).idx() != (#[trigger] d[k]).idx()
+}
+
+/// established once at the start of `next` / `next_back` of the double-ended iterators: what popping either
+/// end of any run does (triggered by the run itself, i.e. by the deque of the postcondition)
+pub proof fn lemma_deq_all<T>(s: Seq<Node<T>>, by_next: bool)
+    // @props C10
+    ensures
+        forall|d: Seq<NodeId>| #[trigger]
+            run_ok(s, d, by_next) && d.len() > 0 ==> {
+                &&& run_ok2(s, d.drop_first(), by_next)
+                &&& run_ok2(s, d.drop_last(), by_next)
+                &&& tgt_ok(s, Some(d[0])) && tgt_ok(s, Some(d[d.len() - 1]))
+                &&& d.len() > 1 ==> {
+                    &&& d[0] != d[d.len() - 1]
+                    &&& lnk(s[d[0].idx()], by_next) == Some(d[1])
+                    &&& lnk(s[d[d.len() - 1].idx()], !by_next) == Some(d[d.len() - 2])
+                    &&& d.drop_first()[0] == d[1] && d.drop_first()[d.len() - 2] == d[d.len() - 1]
+                    &&& d.drop_last()[0] == d[0] && d.drop_last()[d.len() - 2] == d[d.len() - 2]
+                }
+            },
+{
+    assert forall|d: Seq<NodeId>| #[trigger] run_ok(s, d, by_next) && d.len() > 0 implies {
+        &&& run_ok2(s, d.drop_first(), by_next)
+        &&& run_ok2(s, d.drop_last(), by_next)
+        &&& tgt_ok(s, Some(d[0])) && tgt_ok(s, Some(d[d.len() - 1]))
+        &&& d.len() > 1 ==> {
+            &&& d[0] != d[d.len() - 1]
+            &&& lnk(s[d[0].idx()], by_next) == Some(d[1])
+            &&& lnk(s[d[d.len() - 1].idx()], !by_next) == Some(d[d.len() - 2])
+            &&& d.drop_first()[0] == d[1] && d.drop_first()[d.len() - 2] == d[d.len() - 1]
+            &&& d.drop_last()[0] == d[0] && d.drop_last()[d.len() - 2] == d[d.len() - 2]
+        }
+    } by {
+        lemma_deq_pop(s, d, by_next);
+        if d.len() > 1 {
+            let k = d.len() - 2;
+            assert(lnk(s[d[k].idx()], by_next) == Some(d[k + 1]) && lnk(s[d[k + 1].idx()], !by_next) == Some(d[k]));
+        }
     }
 }
 
